@@ -13,7 +13,7 @@
     Proof method: symbolic execution of both sides, one parser primitive at a time ([step] destructs the
     innermost scrutinee; the primitives themselves stay opaque), loops by induction on the fuel. *)
 From Coq Require Import ZArith List Bool Lia.
-From CanVerif Require Import Dbc.Ast Dbc.Scanner Dbc.DecFloat Dbc.Parser.
+From CanVerif Require Import Dbc.Ast Dbc.Scanner Dbc.DecFloat Dbc.Parser Dbc.Totality.
 From CanTranslated Require Import ParserTypes ParserGlue ParserTranslated.
 Import ListNotations.
 Open Scope Z_scope.
@@ -61,13 +61,26 @@ Ltac step_with chk :=
   | |- context [match ?x with _ => _ end] =>
     lazymatch x with
     | context [match _ with _ => _ end] => fail
-    | _ => chk x; destruct x eqn:?; cbv beta iota zeta; pt_records
+    | _ => chk x; destruct x eqn:?; cbv beta iota zeta; pt_records;
+             cbn [str_index str_from Z.ltb Z.compare];
+             try change (Z.to_nat 1) with 1%nat; try change (Z.to_nat 0) with 0%nat; cbn [drop nth_error]
     end
   end.
 Ltac step := step_with not_loop.
 Ltac fstep := step_with ltac:(fun _ => idtac).
 Ltac steps := repeat (first [reflexivity | step]).
 Ltac fsteps := repeat (first [reflexivity | fstep]).
+
+(** uint64(i) of a non-negative strconv.Atoi result is i *)
+Lemma atoi_u64 : forall s i, atoi s = Some i -> (i <? 0) = false -> to_uint64 i = i.
+Proof.
+  intros s i H Hn. apply Z.ltb_ge in Hn. unfold atoi in H.
+  match type of H with context [match ?m with pair _ _ => _ end] => destruct m as [neg ds] end.
+  destruct (parse_uint ds) eqn:E; [|discriminate]. pose proof (parse_uint_nonneg O _ _ E).
+  unfold to_uint64. destruct neg.
+  - destruct (z <=? two63); inversion H; subst. apply Z.mod_small. lia.
+  - destruct (z <? two63) eqn:E2; inversion H; subst. apply Z.ltb_lt in E2. unfold two63 in E2. apply Z.mod_small. lia.
+Qed.
 
 Section Equiv.
   Variable ilh idh : Z -> bool.
@@ -186,6 +199,32 @@ Section Equiv.
   Proof. intros. unfold AttributeDef_parseFrom, parse_attribute. norm. pt_records. steps.
     all: match goal with |- context [comma_strings_loop _ _ _ _ ?r _] =>
            rewrite AttributeDef_loop_eq with (racc := r) by reflexivity end; norm; pt_records; fsteps.
+  Qed.
+
+  Lemma SignalDef_loop_eq : forall f d racc st, SignalDef_Receivers d = rev racc ->
+    SignalDef_parseFrom_loop1 ilh idh F f d st
+    = bind (comma_idents_loop ilh idh F f racc) (fun l => ret (SignalDef_set_Receivers d l)) st.
+  Proof.
+    induction f; intros d racc st H; [reflexivity|].
+    cbn [SignalDef_parseFrom_loop1 comma_idents_loop]. loop_proof d IHf H.
+  Qed.
+
+  (** the SG_ line: multiplexer indicator (tok.txt[0], tok.txt[1:], strconv.Atoi, uint64(i)) included *)
+  Lemma SignalDef_parseFrom_eq' : forall st,
+    bind (SignalDef_parseFrom ilh idh F SignalDef_zero) (fun d => ret (SignalDef_to d)) st = parse_signal ilh idh F st.
+  Proof.
+    intros. unfold SignalDef_parseFrom, parse_signal, comma_idents. norm. pt_records. steps.
+    all: try (match goal with |- context [comma_idents_loop _ _ _ _ ?r _] =>
+           rewrite SignalDef_loop_eq with (racc := r) by reflexivity end; norm; pt_records; fsteps).
+    all: match goal with H1 : atoi _ = Some ?i, H2 : (?i <? 0) = false |- _ => rewrite (atoi_u64 _ _ H1 H2) end; reflexivity.
+  Qed.
+
+  Lemma TP_SignalDef_parseFrom_eq : forall st,
+    run_as SignalDef_to_def (SignalDef_parseFrom ilh idh F SignalDef_zero) st
+    = bind (parse_signal ilh idh F) (fun s => ret (DSignal s)) st.   (* the SG_ arm of Parser.parse_def_with *)
+  Proof.
+    intros. unfold run_as, bind. rewrite <- SignalDef_parseFrom_eq'. unfold bind.
+    destruct (SignalDef_parseFrom ilh idh F SignalDef_zero st); reflexivity.
   Qed.
 
 End Equiv.
